@@ -25,15 +25,17 @@ import itertools, multiprocessing, concurrent.futures
 from .common import *
 from . import c18_impl as I
 
+TRAINOPS = ['train_nas_only', 'train_net_only', 'train_net_and_nas']
 ALL = ['export', 'export_nobn', 'summary', 'cost', 'get_cost:a', 'get_cost:b', 'set_spec:dict', 'set_spec:single_a', 'set_spec:single_b', 'forward', 'train_step', 'flip_sub']
-FULL = [o for o in ALL if o not in ('export_nobn', 'set_spec:single_b')]       # + export_nobn on PIT (the only method that accepts it)
+FULL = [o for o in ALL if o not in ('export_nobn', 'set_spec:single_b')]
+ALL = ALL + TRAINOPS       # + export_nobn on PIT (the only method that accepts it)
 MID = ['export', 'summary', 'cost', 'get_cost:a', 'get_cost:b', 'set_spec:dict', 'set_spec:single_a', 'forward']
 SMALL = ['export', 'summary', 'get_cost:a', 'get_cost:b', 'forward']
 ALPH = {'full': FULL, 'full_pit': ['export_nobn'] + FULL, 'mid': MID, 'small': SMALL, 'zoo': MID + ['train_step']}
-STATE = ('params', 'buffers', 'train_wrapper', 'train_seed', 'train_leaves_all', 'train_leaves_any', 'train_sub_all', 'train_sub_any', 'flags', 'theta', 'rng', 'reqgrad', 'sampling', 'attrs')
+STATE = ('params', 'buffers', 'train_wrapper', 'train_seed', 'train_leaves_all', 'train_leaves_any', 'train_sub_all', 'train_sub_any', 'flags', 'theta', 'rng', 'reqgrad', 'grads', 'sampling', 'attrs', 'user_model')
 DERIVED = ('cost', 'summary', 'export', 'output')
 GROUP = {'params': 'parameters', 'buffers': 'buffers', 'train_wrapper': 'training-mode', 'train_seed': 'training-mode', 'train_leaves_all': 'training-mode',
-         'train_leaves_any': 'training-mode', 'train_sub_all': 'training-mode', 'train_sub_any': 'training-mode', 'flags': 'training-mode', 'theta': 'sampled-coefficients', 'sampling': 'sampling-options', 'attrs': 'module-attributes', 'rng': 'rng', 'reqgrad': 'requires-grad',
+         'train_leaves_any': 'training-mode', 'train_sub_all': 'training-mode', 'train_sub_any': 'training-mode', 'flags': 'training-mode', 'theta': 'sampled-coefficients', 'sampling': 'sampling-options', 'attrs': 'module-attributes', 'grads': 'requires-grad', 'user_model': 'user-model', 'rng': 'rng', 'reqgrad': 'requires-grad',
          'cost': 'cost', 'summary': 'summary', 'export': 'export', 'output': 'output'}
 
 
@@ -65,6 +67,13 @@ def zoo_cfgs():
                 out.append(dict(method='PIT', arch=arch, full_cost=fc, train=train, gumbel=False, spec0='dict' if fc else 'single_a', prefix=(), sub=('bn',), mixed=not fc))
     out.append(dict(method='MPS', arch='fusion', full_cost=True, train=True, gumbel=False, spec0='dict', prefix=(), sub=('sampler',), mixed=False))
     out.append(dict(method='MPS', arch='fusion', full_cost=False, train=True, gumbel=True, spec0='dict', prefix=(), sub=('sampler',), mixed=True))
+    # MPS model that keeps plain BatchNorm1d layers (Conv1d + BN1d is not folded), observers called in TRAINING mode
+    out.append(dict(method='MPS', arch='tcn1d', full_cost=True, train=True, gumbel=False, spec0='dict', prefix=(), sub=('bn',), mixed=False))
+    out.append(dict(method='MPS', arch='tcn1d', full_cost=False, train=True, gumbel=True, spec0='single_a', prefix=('forward',), sub=('sampler',), mixed=True))
+    # parameters frozen by the user at observer time: PIT with its excluded (shared, parameterised) Linear, SuperNet / MPS plain layers
+    out.append(dict(method='PIT', full_cost=True, train=True, gumbel=False, spec0='single_a', prefix=('train_nas_only',), sub=('bn', 'drop'), mixed=False))
+    out.append(dict(method='SuperNet', full_cost=True, train=True, gumbel=True, spec0='dict', prefix=('forward', 'train_step', 'train_nas_only'), sub=('bn', 'drop'), mixed=False))
+    out.append(dict(method='MPS', arch='tcn1d', full_cost=True, train=True, gumbel=False, spec0='single_a', prefix=('train_step', 'train_net_only'), sub=('bn',), mixed=False))
     return out
 
 
@@ -124,6 +133,8 @@ def step_oracle(cfg, path, ob, fp, par, fails):
         ba = {k: (par[k], fp[k]) for k in ch[:4]}
         if 'sampling' in ch:
             ba['sampling'] = (par['sampling_v'], fp['sampling_v'])
+        if 'reqgrad' in ch:
+            ba['reqgrad'] = ('un-frozen by the call: %s' % sorted(set(par['reqgrad_v']) - set(fp['reqgrad_v']))[:8], 'frozen by the call: %s' % sorted(set(fp['reqgrad_v']) - set(par['reqgrad_v']))[:8])
         if 'attrs' in ch:
             ba['attrs'] = (sorted(set(par['attrs_v']) - set(fp['attrs_v']))[:6], sorted(set(fp['attrs_v']) - set(par['attrs_v']))[:6])
         if 'cost' in ch:       # show the values: each metric as read FIRST on a copy of the model before / after the call
@@ -189,7 +200,7 @@ def path_oracles(cfg, nodes, fails):
 # ----------------------------------------------------------------------------- model side
 def coq_cfg(c):
     m = {'PIT': 'PIT', 'MPS': 'MPS', 'SuperNet': 'SN'}[c['method']]
-    has_bn = c['method'] in ('PIT', 'SuperNet')
+    has_bn = c['method'] in ('PIT', 'SuperNet') or c.get('arch') == 'tcn1d'
     has_drop = c['method'] in ('PIT', 'SuperNet') and not c.get('arch')        # the zoo networks have no Dropout
     sub = c.get('sub', ())
     return '(mkCfg %s %s %s %s true %s %s %s %s)' % (m, coq(c['gumbel']), coq(has_bn), coq(has_drop), coq('bn' in sub), coq('drop' in sub), coq('sampler' in sub), coq(c['full_cost']))
@@ -204,6 +215,7 @@ def coq_op(op):
     if op.startswith('get_cost:'):
         return '(OGetCost "%s"%%string)' % op.split(':')[1]
     return {'export': 'OExport', 'export_nobn': 'OExportNoBn', 'summary': 'OSummary', 'cost': 'OCost', 'forward': 'OForward', 'train_step': 'OTrainStep', 'flip_sub': 'OFlip',
+            'train_nas_only': '(OSetTrain TNas)', 'train_net_only': '(OSetTrain TNet)', 'train_net_and_nas': '(OSetTrain TAll)',
             'opts:frozen': '(OSetOpt (Some true) None None None)', 'opts:unfrozen': '(OSetOpt (Some false) None None None)',
             'opts:hard': '(OSetOpt None (Some true) None None)', 'opts:soft': '(OSetOpt None (Some false) None None)',
             'opts:gumbel_on': '(OSetOpt None None (Some true) None)', 'opts:gumbel_off': '(OSetOpt None None (Some false) None)',
@@ -216,7 +228,7 @@ def compare_path(cfg, path, nodes, mres, mism):
     n = 0
     fps = [nodes[path[:i]][1] for i in range(len(path) + 1)]
     obs = [nodes[path[:i + 1]][0] for i in range(len(path))]
-    init = (0, 0, (cfg['train'],) * 3 + (cfg['train'] != bool(cfg.get('mixed')),), ('TInit',), 0, (SPEC_COQ[cfg['spec0']],), False, (False, False, cfg['gumbel'], 1))
+    init = (0, 0, (cfg['train'],) * 3 + (cfg['train'] != bool(cfg.get('mixed')),), ('TInit',), 0, (SPEC_COQ[cfg['spec0']],), False, (False, False, cfg['gumbel'], 1), ('TBuilt',))
     k = len(cfg.get('prefix', ()))
     sts = ([init] + [r[1] for r in mres])[k:]
     mobs = [r[0] for r in mres][k:]
@@ -224,7 +236,7 @@ def compare_path(cfg, path, nodes, mres, mism):
     def bad(what, i, model, impl):
         mism.append({'what': what, 'cfg': cfg, 'ops': list(path), 'step': i, 'model': repr(model), 'impl': repr(impl)})
     for i, (st, fp) in enumerate(zip(sts, fps)):
-        pv, bv, (tw, ts, tl, tsub), th, rng, sp, pol, mopt = st
+        pv, bv, (tw, ts, tl, tsub), th, rng, sp, pol, mopt, mtrn = st
         for nm, mv, iv in (('train_wrapper', tw, fp['train_wrapper']), ('train_seed', ts, fp['train_seed']), ('train_rest(all)', tl, fp['train_leaves_all']),
                            ('train_rest(any)', tl, fp['train_leaves_any']), ('train_sub(all)', tsub, tsub if fp['train_sub_all'] is None else fp['train_sub_all']),
                            ('train_sub(any)', tsub, tsub if fp['train_sub_any'] is None else fp['train_sub_any']), ('polluted', pol, fp['polluted']), ('spec', sp[0], SPEC_COQ[spec_after(cfg, path[:i])])):
@@ -238,9 +250,10 @@ def compare_path(cfg, path, nodes, mres, mism):
         for j in range(i + 1, len(sts)):
             a, b = sts[i], sts[j]
             for nm, ma, mb, key, both in (('params', a[0], b[0], 'params', True), ('rng', a[4], b[4], 'rng', True),
+                                          ('requires_grad mode', a[8], b[8], 'reqgrad', False),
                                           ('sampling options', a[7] if cfg['method'] != 'PIT' else 0, b[7] if cfg['method'] != 'PIT' else 0, 'sampling', True),
                                           ('buffers', (a[1], (a[3], a[7][3]) if mps else 0), (b[1], (b[3], b[7][3]) if mps else 0), 'buffers', j == i + 1 and a[1] != b[1]),     # MPS: theta_alpha and temperature are buffers
-                                          ('theta', a[3], b[3], 'theta', j == i + 1 and cfg['method'] != 'PIT' and a[3][0] != 'TInit'
+                                          ('theta', a[3], b[3], 'theta', j == i + 1 and cfg['method'] != 'PIT' and a[3][0] != 'TInit' and a[8][0] != 'TNet'     # (frozen alpha: same sample)
                                            and ((b[3][0] == 'TGumbel' and not b[3][3]) or (b[3][0] == 'TSoft' and not b[3][2])))):     # one-hot samples may coincide
                 n += 1
                 ie = fps[i][key] == fps[j][key]
@@ -264,7 +277,7 @@ def plan(ctx):
     only = os.environ.get('VERIF_C18_METHODS')        # development knob (mutant runs): restrict to some methods
     if only:
         cfgs = [c for c in cfgs if c['method'] in only.split(',')]
-    main = [c for c in cfgs if not c.get('arch') and c['train'] and (c['method'] == 'PIT' or c['gumbel'])]          # 2 + 2 + 2
+    main = [c for c in cfgs if not c.get('arch') and not c.get('prefix') and c['train'] and (c['method'] == 'PIT' or c['gumbel'])]          # 2 + 2 + 2
     tasks = []
     full = lambda c: ('zoo' if ctx.quick else 'full') if c.get('arch') else 'full_pit' if c['method'] == 'PIT' else 'full'
     # depth 3: the three main methods in training, one with uniform flags + dict specification, two with mixed flags + dict
@@ -310,7 +323,7 @@ def run(ctx):
                 'nas cost + single specification + MIXED flags: BatchNorm/Dropout/samplers opposite to the wrapper}) + 3 training configurations with full_cost, dict specification '
                 '(2 of them with mixed flags); every history runs from scratch on one freshly built live object; + seeded length-5 histories (random sub-set S, random mixed start, '
                 'random initial specification, update_softmax_options presets as ops and in the prefix) + 10 MPS / SuperNet configurations whose sampling options are non-default at '
-                'observer time + 8 zoo configurations (PIT causal Conv1d net with ConstantPad1d(value != 0) and pruned rf/dilation masks; PIT and MPS two-input nets that cat their raw inputs); options: (disable_sampling=True after search steps, hard, temperature 0.5, gumbel switched; 8-op alphabet depth 2). quick: depth 2 on the 20, depth 3 on the 3; thorough: depth 3 on training / 2 on eval configurations, 8-op alphabet depth 4 on 4, '
+                'observer time + 13 zoo configurations (PIT causal Conv1d net with ConstantPad1d(value != 0) and pruned rf/dilation masks; PIT and MPS two-input nets that cat their raw inputs; MPS Conv1d+BatchNorm1d net whose BN stays unfolded, in training mode; parameters frozen with train_nas_only / train_net_only before the observers); options: (disable_sampling=True after search steps, hard, temperature 0.5, gumbel switched; 8-op alphabet depth 2). quick: depth 2 on the 20, depth 3 on the 3; thorough: depth 3 on training / 2 on eval configurations, 8-op alphabet depth 4 on 4, '
                 '5-op alphabet depth 5 on 3; a case = one history; non-trivial = it contains an observer call; distinct = distinct (configuration, history)')
     tasks.sort(key=lambda t: -(len(ALPH[t[2]]) ** (t[3] - 1) if t[0] == 'dfs' else 1))
     mp = multiprocessing.get_context('fork')
@@ -392,6 +405,8 @@ def replay(r):
         if is_obs(op):
             ch = [k for k in STATE + DERIVED if fp[k] != par[k]]
             print('step %d %-18s -> %-16s changed: %s' % (i + 1, op, str(res['obs'][i])[:16], ch or 'nothing'))
+            if 'reqgrad' in ch:
+                print('        parameters un-frozen by the call: %s  frozen by the call: %s' % (sorted(set(par['reqgrad_v']) - set(fp['reqgrad_v']))[:8], sorted(set(fp['reqgrad_v']) - set(par['reqgrad_v']))[:8]))
             if 'attrs' in ch:
                 print('        module attributes before: %s  after: %s' % (sorted(set(par['attrs_v']) - set(fp['attrs_v']))[:6], sorted(set(fp['attrs_v']) - set(par['attrs_v']))[:6]))
             if 'sampling' in ch:
